@@ -1017,6 +1017,22 @@ def use_rules(ctx):
                     early.append(b.site(c.bb))
             ctx.check(not early, 'C04.use/%s/no-defaults-before-dependencies' % item, 'T-MUSTCALL', b.name,
                       'omitted variables are filled with default values before eval_dependencies runs (%s)' % early, b.site(e0.bb))
+        # The bounds are those of the problem as submitted: a replaced variable keeps its bound, but its recovered value is whatever its
+        # replacement evaluates to (binary x1 := x2 + x3 at (1, 1)).  So a bound check looks at the state AS GIVEN, never at a state
+        # that eval_dependencies or a value write of this function has already touched (seed C04-14: check moved behind the recovery ->
+        # Err for an in-bound state of the remaining variables).  No bound check at all is not C04's business.
+        cbs = [c for c in b.calls if c.item == 'check_bound' and re.search(r'Instance>::check_bound$', c.path) and len(c.args) >= 2]
+        writers = [(c, c.args[1]) for c in b.calls if c.item == 'eval_dependencies' and len(c.args) >= 2]
+        writers += [(c, c.args[0]) for c in b.calls if 'u64, f64>' in c.name and (c.item in STATE_WRITES or c.item in ('entry', 'extend', 'remove', 'clear', 'retain')) and c.args]
+        late = []
+        for cb in cbs:
+            rc = _root(b, cb.args[1])
+            for w, wop in writers:
+                if w.target < 0 or rc is None or _root(b, wop) != rc: continue
+                same_iteration = {h for h, bl in b.loops().items() if w.bb in bl}
+                if cb.bb in b.reach([w.target], stop=same_iteration): late.append(b.site(cb.bb)); break
+        ctx.check(not late, 'C04.use/%s/bound-check-on-submitted-state' % item, 'T-GUARD', b.name,
+                  'check_bound is applied to a state after dependent / fixed / default values were written into it (%s)' % late, b.site(cbs[0].bb) if cbs else b.site())
 
 
 # eval_dependencies treats "the dependency could not be evaluated yet" as Err from the evaluation kernels:
@@ -1032,4 +1048,4 @@ RELIES_ON = {'C01': ['C01.lookup', 'C01.fields', 'C01.every-term'],
 
 def check(ctx):
     instance_rules(ctx); function_rules(ctx); deps_rules(ctx); use_rules(ctx)
-    ctx.floor('C04.instance', 35); ctx.floor('C04.function', 16); ctx.floor('C04.deps', 13); ctx.floor('C04.use', 6)
+    ctx.floor('C04.instance', 35); ctx.floor('C04.function', 16); ctx.floor('C04.deps', 13); ctx.floor('C04.use', 8)
